@@ -485,6 +485,16 @@ fn gen_freq(rng: &mut Rng, fs: f32, chaos: bool) -> f32 {
 }
 
 fn gen_phase(rng: &mut Rng, chaos: bool) -> f32 {
+    if rng.chance(0.12) {
+        // a large argument that still carries a fraction: magnitude in [2^k, 2^(k+1)), fraction on the f32 grid
+        let k = rng.range(1, 23) as u32;
+        let int = (1u64 << k) + rng.below(1u64 << k);
+        let fbits = 23 - k;
+        let frac = if fbits == 0 { 0.0 } else { rng.below(1u64 << fbits) as f64 / (1u64 << fbits) as f64 };
+        let frac = if rng.chance(0.4) && fbits > 0 { 0.5 } else { frac };
+        let v = (int as f64 + frac) as f32;
+        return if rng.chance(0.5) { -v } else { v };
+    }
     match rng.below(if chaos { 5 } else { 10 }) {
         0 => *rng.pick(&[0.0f32, 0.25, 0.5, 0.75, 0.99999994, 0.9990234, 0.99902344, 0.998, 1.0, 2.0]),
         1 => -(rng.f64() as f32),
@@ -522,6 +532,36 @@ fn random_run(rng: &mut Rng, prof: &Profile, run: u64, sink: &mut Sink<LfoEngine
     let max_events = 20 + rng.usize(120);
     let style = rng.below(4);
     t.push(Ev::SetFreq(gen_freq(rng, fs, chaos).to_bits()));
+    // long-running blocks (where narrow counters wrap), in a small share of the runs
+    if rng.chance(0.02) {
+        let n = rng.near_pow2(false);
+        match rng.below(3) {
+            0 => {
+                // many frequency writes between two ticks, the last one decides
+                for _ in 0..n {
+                    t.push(Ev::SetFreq(gen_freq(rng, fs, chaos).to_bits()));
+                }
+                t.push(Ev::Tick(rng.range(2, 40) as u32));
+            }
+            1 => {
+                // many sync pulses
+                for _ in 0..n {
+                    t.push(if rng.chance(0.5) { Ev::Reset } else { Ev::SetPhase(gen_phase(rng, chaos).to_bits()) });
+                    t.push(Ev::Tick(1));
+                }
+            }
+            _ => {
+                // many wraps: a fast oscillator for n cycles
+                let per = rng.range(3, 17) as f64;
+                t.push(Ev::SetFreq(((fs as f64 / per) as f32).to_bits()));
+                t.push(Ev::Tick((n as f64 * per) as u32 + 5));
+                t.push(Ev::SetFreq(gen_freq(rng, fs, chaos).to_bits()));
+                t.push(Ev::Tick(rng.range(2, 40) as u32));
+            }
+        }
+    }
+    let budget = budget + t.ctx.steps;
+    let max_events = max_events + t.evs.len();
     while !t.dead && t.ctx.steps < budget && t.evs.len() < max_events {
         let act = rng.weighted(&[40, 14, 4, 12, 8, 1, if style >= 2 { 20 } else { 4 }]);
         match act {
@@ -548,8 +588,12 @@ fn random_run(rng: &mut Rng, prof: &Profile, run: u64, sink: &mut Sink<LfoEngine
                 let p = gen_phase(rng, chaos);
                 t.push(Ev::SetPhase(p.to_bits()));
                 // an exactly congruent partner for negative arguments ("depends only on p modulo 1")
-                if p < 0.0 && p > -1000.0 && rng.chance(0.7) {
-                    let k = rng.range(1, 64) as f64;
+                if p < 0.0 && p > -1.0e7 && rng.chance(0.7) {
+                    let k = match rng.below(3) {
+                        0 => rng.range(1, 64) as f64,
+                        1 => (1u64 << rng.range(1, 22)) as f64,
+                        _ => (p as f64).trunc(), // negative k: the partner in (-1, 0]
+                    };
                     let p2 = (p as f64 - k) as f32;
                     if p2 as f64 == p as f64 - k {
                         if rng.chance(0.5) {
